@@ -14,6 +14,7 @@ PROPERTY = "C06"
 META = {
     "level": "other",
     "bounds": [
+        "field_api: Field / FieldPlaneStrain / FieldAxisymmetric on a symbolic affine quad: constant-vector initialisation, grad / interpolate / extract into dirty out= buffers, sym and add_identity flags",
         "copies: Region.astype (copy True / False) and Region.copy of a quad8 / quad4 region with gradients and hessians on symbolic affine geometry keep h, dhdr, drdX, dXdr, dhdX, dV, d2hdrdr, d2hdXdX",
         "one cell with symbolic nodal coordinates = reference cell + offsets |e| <= 0.15: tri3, quad4, tet4 (quick), quad8, tri6, hex8 (thorough); 'valid mesh' = the library's own dV < 0 test is assumed False",
         "volume: sum of dV equals the exact integral of det(dX/dr) over the reference cell, integrated exactly from the symbolically traced element gradient (own polynomial integration; tolerance 1e-9 because "
@@ -339,6 +340,42 @@ def case_copies(ctx, kind, copy=True):
         ctx.equal("copy_keeps_%s" % n, np.asarray(getattr(dup, n)), orig[n])
 
 
+def case_field_api(ctx, fieldkind):
+    """Field construction and evaluation options on a symbolic affine quad: a field initialised with a constant vector holds that
+    vector at every point (interpolation reproduces it, the gradient vanishes); grad / interpolate / extract into a DIRTY caller
+    buffer (out=) give the same result as without a buffer; sym=True is the symmetric part, add_identity adds the unit tensor"""
+    mesh = mesh_affine(ctx, "quad4")[0]
+    if fieldkind == "Axisymmetric":
+        mesh = fem.Mesh(np.asarray(mesh.points) + np.array([0, 3]), mesh.cells, mesh.cell_type)  # radius = y > 0
+    with ctx.assume_forks(False):
+        region = fem.RegionQuad(mesh)
+    Fld = {"Field": fem.Field, "PlaneStrain": fem.FieldPlaneStrain, "Axisymmetric": fem.FieldAxisymmetric}[fieldkind]
+    dt = object if ctx.sym else float
+    c = ctx.array("c", (2,), -2, 2)
+    f0 = Fld(region, dim=2, values=np.asarray(c, dtype=dt))
+    ctx.equal("constant_vector_initialisation_holds_the_vector_at_every_point", np.asarray(f0.values), np.array([list(c)] * mesh.npoints, dtype=dt))
+    ctx.equal("interpolation_reproduces_the_constant", np.asarray(f0.interpolate())[:2], np.array([[[c[i]] * 1 for _ in range(region.quadrature.npoints)] for i in range(2)], dtype=dt), tol=1e-12)
+    f = Fld(region, dim=2)
+    f.values = ctx.array("u", (mesh.npoints, 2), -0.3, 0.3)
+    g0 = np.array(np.asarray(f.grad()), copy=True)
+    v0 = np.array(np.asarray(f.interpolate()), copy=True)
+    junk = lambda shape, name: (ctx.array(name, shape, -5, 5) if ctx.sym else np.asarray(ctx.array(name, shape, -5, 5), dtype=float))  # noqa: E731
+    g1 = np.asarray(f.grad(out=junk(g0.shape, "jg")))
+    ctx.equal("grad_into_a_dirty_buffer_equals_grad", g1, g0)
+    v1 = np.asarray(f.interpolate(out=junk(v0.shape, "jv")))
+    ctx.equal("interpolate_into_a_dirty_buffer_equals_interpolate", v1, v0)
+    gs = np.asarray(f.grad(sym=True))
+    ctx.equal("sym_gradient_is_symmetric_part", gs, (g0 + np.transpose(g0, (1, 0, 2, 3))) / 2)
+    cont = fem.FieldContainer([f])
+    e0 = np.array(np.asarray(cont.extract()[0]), copy=True)
+    I = np.eye(g0.shape[0], dtype=int).reshape(g0.shape[0], g0.shape[0], 1, 1)
+    ctx.equal("extract_adds_the_identity", e0, g0 + I)
+    e1 = np.asarray(cont.extract(out=[junk(e0.shape, "je")])[0])
+    ctx.equal("extract_into_a_dirty_buffer_equals_extract", e1, e0)
+    e2 = np.asarray(cont.extract(grad=True, sym=True, add_identity=False)[0])
+    ctx.equal("extract_sym_without_identity", e2, gs)
+
+
 def case_families(ctx):
     """a straight-sided quad and its split into two triangles have the same area"""
     mesh = mesh_offset(ctx, "quad4")
@@ -368,6 +405,8 @@ def cases(tier):
     for k in ("quad8", "quad9", "tet10", "hex8", "hex20") + (("hex27",) if thorough else ()):
         out.append(("pairing", case_pairing, {"kind": k, "concrete": True, "max_paths": 8}))
     out.append(("families", case_families, {"max_paths": 8}))
+    for fk in ("Field", "PlaneStrain", "Axisymmetric"):
+        out.append(("field_api", case_field_api, {"fieldkind": fk, "max_paths": 8}))
     out.append(("copies", case_copies, {"kind": "quad8", "copy": True, "max_paths": 8}))
     out.append(("copies", case_copies, {"kind": "quad8", "copy": False, "max_paths": 8}))
     out.append(("copies", case_copies, {"kind": "quad4", "copy": True, "max_paths": 8}))
